@@ -549,7 +549,11 @@ impl Parse for TraitAttrCore {
         let type_hint = if ty.nameless_tuple { TypeHint::Tuple } else { try_parse_type_hint(input)? };
         let err_ty = if input.peek(Token![,]) {
             input.parse::<Token![,]>()?;
-            Some(input.parse::<syn::Path>()?.into())
+            let err_path = input.parse::<syn::Path>()?;
+            let full_path = err_path.to_token_stream();
+            let mut err_ty: TypePath = err_path.into();
+            err_ty.path = full_path;
+            Some(err_ty)
         } else { None };
 
         let mut attr = TraitAttrCore { ty, err_ty, type_hint, init_data: None, update: None, quick_return: None, default_case: None, repeat: None, skip_repeat: false, stop_repeat: false, attribute: None, impl_attribute: None, inner_attribute: None };
